@@ -205,6 +205,9 @@ def r14_2(ctx: Ctx, cg: CallGraph) -> None:
             ok, why = ow.classify(st)
             if ok:
                 continue
+            if ok is None:
+                ctx.gap("R14.2", f"{short}: `{st.text()}`: {why}")
+                continue
             tcls = ow.target_class(st)
             root, depth = root_of(st.target)
             rcls = cg.expr_class(fi, root) if root is not None else None
@@ -298,8 +301,12 @@ def r14_4(ctx: Ctx, cg: CallGraph) -> None:
                 continue
             n += 1
             ok, why = _order_normalised(fi, it)
-            ctx.instance("R14.4", fi.where(it), f"{short}: iteration over set `{unparse(it.iter if hasattr(it, 'iter') else it.args[0])[:60]}`: {why}")
-            if not ok:
+            sens = None if ok else _order_sensitive_use(fi, it)
+            ctx.instance("R14.4", fi.where(it), f"{short}: iteration over set `{unparse(it.iter if hasattr(it, 'iter') else it.args[0])[:60]}`: {why if ok or not sens else sens}")
+            if not ok and sens is None:
+                ctx.gap("R14.4", f"{short}: what becomes of the order of `{unparse(it)[:60]}` (iteration over a set) is not modelled")
+            elif not ok:
+                why = sens
                 ctx.violation("R14.4", short, "set order " + unparse(it)[:60], fi.where(it),
                               f"{short}: the iteration order of a set (hash order, randomised per process for strings) can reach the output: {why}")
     ctx.floor("R14.4", 2)
@@ -346,6 +353,59 @@ def _order_free_use(fi, e: ast.AST, depth: int = 3) -> str | None:
                 return f"every use of `{name}` is order-free ({whys[0]})"
         return None
     return None
+
+
+def _order_sensitive_use(fi, it, depth: int = 3) -> str | None:
+    """positive evidence that the iteration order of `it` (a loop / comprehension / list() over a set) is kept in a value whose
+    order matters: an ordered sequence that is indexed, searched, joined, returned, or appended to piece by piece"""
+    def up(e, depth):
+        q = getattr(e, "_parent", None)
+        if isinstance(q, ast.Call) and e in q.args:
+            if dotted(q.func) in ORDER_KEEPING:
+                return up(q, depth)
+            if isinstance(q.func, ast.Attribute) and q.func.attr == "join":
+                return "joined into a string in iteration order"
+            if isinstance(q.func, ast.Attribute) and q.func.attr in ("extend", "append", "insert", "write", "writelines"):
+                return f"fed to .{q.func.attr}() in iteration order"
+            return None
+        if isinstance(q, ast.Attribute) and q.value is e and q.attr in ("index", "pop"):
+            return f"searched / consumed by position (.{q.attr})"
+        if isinstance(q, ast.Subscript) and q.value is e:
+            return "indexed by position"
+        if isinstance(q, (ast.Return, ast.Yield, ast.YieldFrom)):
+            return "returned in iteration order"
+        if isinstance(q, ast.comprehension) and q.iter is e:
+            comp = getattr(q, "_parent", None)
+            if isinstance(comp, (ast.ListComp, ast.GeneratorExp, ast.DictComp)):
+                return up(comp, depth)
+            return None
+        if isinstance(q, ast.For) and q.iter is e:
+            return loop(q)
+        if isinstance(q, ast.Assign) and len(q.targets) == 1 and isinstance(q.targets[0], ast.Name) and depth > 0:
+            name = q.targets[0].id
+            for ld in walk_no_nested(fi.node):
+                if isinstance(ld, ast.Name) and ld.id == name and isinstance(ld.ctx, ast.Load):
+                    w = up(ld, depth - 1)
+                    if w:
+                        return f"`{name}` is {w}"
+        return None
+
+    def loop(lp):
+        for st in lp.body:
+            for x in ast.walk(st):
+                if isinstance(x, ast.Call) and isinstance(x.func, ast.Attribute) and x.func.attr in ("append", "extend", "insert", "write", "writelines"):
+                    return f"loop body calls .{x.func.attr}() once per element, in iteration order"
+                if isinstance(x, (ast.Yield, ast.YieldFrom)):
+                    return "loop body yields once per element, in iteration order"
+                if isinstance(x, ast.AugAssign) and isinstance(x.op, ast.Add) and isinstance(x.value, (ast.JoinedStr, ast.Constant, ast.List)):
+                    return "loop body concatenates once per element, in iteration order"
+        return None
+    if isinstance(it, ast.For):
+        return loop(it)
+    holder = getattr(it, "_parent", None) if isinstance(it, ast.comprehension) else it
+    if isinstance(holder, (ast.SetComp,)):
+        return None
+    return up(holder, depth)
 
 
 def _order_normalised(fi, it) -> tuple[bool, str]:
